@@ -708,6 +708,153 @@ def run_ctx(progs, tmpdir):
 
 
 # ----------------------------------------------------------------------------------------------
+# property-level oracle: zero-argument super() must refer to the class that DEFINES the calling
+# method (the __class__ cell), not to the class of the receiver: three-level hierarchies
+# Base <- Middle (defines the method, uses super()) <- Leaf (inherits it) [<- Leaf2]
+SUPER_FORMS = [
+    ('plain-guarded', "if n > 0:\n    r = r + super().{M}(n - 1)\n"),
+    ('loop', "for i in range(n):\n    r = r + super().{M}(0)\n"),
+    ('while', "k = 0\nwhile k < n:\n    k = k + 1\n    r = r + super().{M}(0)\n"),
+    ('loop+branch', "for i in range(n):\n    if i < 2:\n        r = r + super().{M}(i)\n"),
+    ('branch+loop', "if n > 1:\n    for i in range(n - 1):\n        r = r + super().{M}(i)\nelse:\n    r = r + ['else']\n"),
+    ('lambda', "if n > 0:\n    g = lambda s, q: super().{M}(q)\n    r = r + g({SELF}, n - 1)\n"),
+    ('function-body', "r = r + super().{M}(n)\n"),
+]
+SUPER_DRIVERS = [
+    ('instance method, receiver of the defining class', 'HM{k}().m(n)'),
+    ('instance method inherited, receiver of the subclass', 'HL{k}().m(n)'),
+    ('instance method inherited twice, receiver of the sub-subclass', 'HLL{k}().m(n)'),
+    ('classmethod, called on the defining class', 'HM{k}.c(n)'),
+    ('classmethod inherited, called on the subclass', 'HL{k}.c(n)'),
+    ('classmethod inherited, called on an instance of the subclass', 'HL{k}().c(n)'),
+]
+
+
+def _indent(text, n):
+    return ''.join(' ' * n + l + '\n' for l in text.rstrip('\n').split('\n'))
+
+
+def super_hier_programs():
+    """-> [(k, form name, class source, [(driver description, driver name, driver source)])]"""
+    out = []
+    for k, (fname, form) in enumerate(SUPER_FORMS):
+        src = ('class HB%d(object):\n'
+               '    def m(self, n):\n        return [\'B.m\', type(self).__name__, n]\n'
+               '    @classmethod\n    def c(cls, n):\n        return [\'B.c\', cls.__name__, n]\n'
+               'class HM%d(HB%d):\n'
+               '    def m(self, n):\n        r = [\'M.m\']\n%s        return r\n'
+               '    @classmethod\n    def c(cls, n):\n        r = [\'M.c\']\n%s        return r\n'
+               'class HL%d(HM%d):\n    pass\n'
+               'class HLL%d(HL%d):\n    def other(self):\n        return 1\n') % (
+            k, k, k, _indent(form.replace('{M}', 'm').replace('{SELF}', 'self'), 8),
+            _indent(form.replace('{M}', 'c').replace('{SELF}', 'cls'), 8), k, k, k, k)
+        drivers = []
+        for j, (desc, expr) in enumerate(SUPER_DRIVERS):
+            dn = 'sdrv%d_%d' % (k, j)
+            drivers.append((desc, dn, 'def %s(n):\n    return %s\n' % (dn, expr.replace('{k}', str(k)))))
+        out.append((k, fname, src, drivers))
+    return out
+
+
+def run_super_hier(tmpdir):
+    """Each driver as plain Python vs malt.to_graph(driver) (recursive conversion reaches the methods)."""
+    import malt
+    progs = super_hier_programs()
+    src = '\n'.join(p[2] + ''.join(d[2] for d in p[3]) for p in progs)
+    path = os.path.join(tmpdir, 'c14_super_programs.py')
+    with open(path, 'w') as f:
+        f.write(src)
+    spec = importlib.util.spec_from_file_location('c14_super_programs', path)
+    mod = importlib.util.module_from_spec(spec)
+    sys.modules['c14_super_programs'] = mod
+    spec.loader.exec_module(mod)
+    results = []
+    old = sys.getrecursionlimit()
+    sys.setrecursionlimit(400)      # a wrong class makes the method re-enter itself
+    try:
+        for k, fname, csrc, drivers in progs:
+            for desc, dn, dsrc in drivers:
+                for n in (0, 1, 3):
+                    def call(f):
+                        try:
+                            return ('value', repr(f(n)))
+                        except Exception as e:   # noqa
+                            return ('raise', type(e).__name__, str(e)[:120])
+                    orig = call(getattr(mod, dn))
+                    try:
+                        g = malt.to_graph(getattr(mod, dn))
+                    except Exception as e:   # noqa
+                        conv = ('raise-in-conversion', type(e).__name__, str(e)[:120])
+                    else:
+                        conv = call(g)
+                    results.append((fname, desc, csrc + dsrc, dn, n, orig, conv))
+    finally:
+        sys.setrecursionlimit(old)
+    return results
+
+
+def run_super_direct(pb):
+    """super_in_original_context(super, (), scope) called from real method frames vs native super()."""
+    class Scope(object):
+        name = 'fscope'
+
+    class B(object):
+        def m(self, n):
+            return ['B.m', type(self).__name__, n]
+
+        @classmethod
+        def c(cls, n):
+            return ['B.c', cls.__name__, n]
+
+    class M(B):
+        def m(self, n, native=False):
+            fscope = Scope()    # noqa: the frame search looks for this local
+            if native:
+                return ['M.m'] + super().m(n)
+            return ['M.m'] + pb.super_in_original_context(super, (), fscope).m(n)
+
+        def mb(self, n, native=False):
+            fscope = Scope()
+
+            def loop_body():     # a generated body function: holds fscope (and __class__) as free variables
+                return pb.super_in_original_context(super, (), fscope).m(n)
+            if native:
+                return ['M.mb'] + super().m(n)
+            return ['M.mb'] + loop_body()
+
+        @classmethod
+        def c(cls, n, native=False):
+            fscope = Scope()    # noqa
+            if native:
+                return ['M.c'] + super().c(n)
+            return ['M.c'] + pb.super_in_original_context(super, (), fscope).c(n)
+
+    class L(M):
+        pass
+
+    class LL(L):
+        pass
+    results = []
+    old = sys.getrecursionlimit()
+    sys.setrecursionlimit(300)
+    try:
+        for rdesc, recv in (('M()', M()), ('L()', L()), ('LL()', LL()), ('M', M), ('L', L)):
+            for meth in ('m', 'mb', 'c'):
+                if isinstance(recv, type) and meth != 'c':
+                    continue
+
+                def call(native):
+                    try:
+                        return ('value', repr(getattr(recv, meth)(2, native)))
+                    except Exception as e:   # noqa
+                        return ('raise', type(e).__name__, str(e)[:120])
+                results.append((rdesc, meth, call(True), call(False)))
+    finally:
+        sys.setrecursionlimit(old)
+    return results
+
+
+# ----------------------------------------------------------------------------------------------
 def check(run):
     thorough = run.tier == 'thorough'
     rnd = random.Random(run.seed)
@@ -732,7 +879,9 @@ def _check(run, rnd, thorough, tmp):
                 '(documented names + overload parameter names + a bogus name), truth-tested keywords with all three truth '
                 'behaviours, 5 registry configurations; values: seeded products over ints/floats/bools/strings/bytes/lists/'
                 'tuples/dicts/sets/iterators/generators/logged iterables/user objects with dunders; context builtins: every '
-                'nesting (depth<=2) of for/while/if/if-else around 8 uses of eval/locals/globals + recursion + super in methods; '
+                'nesting (depth<=2) of for/while/if/if-else around 8 uses of eval/locals/globals + recursion + super in methods; three-level hierarchies Base<-Middle(zero-arg super)<-Leaf[<-Leaf2] x 7 placements '
+                '(function body, guarded, for, while, loop+branch, branch+loop, lambda) x instance/class methods x receivers of the defining and '
+                'inheriting classes, through to_graph(driver) and directly through super_in_original_context on real frames; '
                 'distinct non-trivial = distinct (builtin, observed behaviour) pairs')
     # 1. regenerate
     tie_msg = None
@@ -895,6 +1044,43 @@ def _check(run, rnd, thorough, tmp):
     if res:
         run.sample({'program': res[len(res) // 3][1], 'argument': res[len(res) // 3][2]})
 
+    # 4c. zero-argument super() and the defining class -----------------------------------------------
+    try:
+        sres = run_super_hier(tmp)
+        dres = run_super_direct(pb)
+    except Exception as e:   # noqa
+        import traceback
+        sres, dres = [], []
+        failures.append(('super() hierarchy oracle crashed: %s' % e, {'traceback': traceback.format_exc()[-2000:]}, None))
+    groups = {}
+    for fname, desc, psrc, dn, n, orig, conv in sres:
+        run.count()
+        run.nontriv(('super-hier', fname, desc, orig[0], conv[0]))
+        if orig[:2] != conv[:2]:
+            groups.setdefault('classmethod' if desc.startswith('classmethod') else 'instance method', []).append(
+                (fname, desc, psrc, dn, n, orig, conv))
+    for kind, fl in sorted(groups.items()):
+        fname, desc, psrc, dn, n, orig, conv = fl[0]
+        failures.append(('zero-argument super() (%s) in a converted %s: converted driver differs from plain Python' % (fname, desc),
+                         {'program': psrc, 'call': 'malt.to_graph(%s)(%d)  vs  %s(%d)' % (dn, n, dn, n), 'python': orig, 'converted': conv,
+                          'replay': 'save `program` as a module, then PYTHONPATH=/repo /venv/bin/python -c "import malt, mod; '
+                                    'print(mod.%s(%d), malt.to_graph(mod.%s)(%d))"' % (dn, n, dn, n),
+                          'also_failing': sorted(set('%s / %s' % (f[0], f[1]) for f in fl[1:]))[:40]}, None))
+    dbad = [d for d in dres if d[2][:2] != d[3][:2]]
+    for rdesc, meth, native, direct in dres:
+        run.count()
+        run.nontriv(('super-direct', rdesc, meth, native[0], direct[0]))
+    if dbad:
+        rdesc, meth, native, direct = dbad[0]
+        failures.append(('py_builtins.super_in_original_context(super, (), fscope) called in method %s of Middle on receiver %s '
+                         'does not resolve like the native super()' % (meth, rdesc),
+                         {'hierarchy': 'class B: m, c(classmethod); class M(B): m / mb (call from a nested body function) / c use '
+                                       'super_in_original_context(super, (), fscope) with a local fscope whose .name is "fscope"; '
+                                       'class L(M): pass; class LL(L): pass  (tools/props/c14.py run_super_direct)',
+                          'receiver': rdesc, 'method': meth, 'argument': 2, 'native_super': native, 'super_in_original_context': direct,
+                          'also_failing': ['%s.%s' % (d[0], d[1]) for d in dbad[1:]]}, None))
+    run.extra['super_hierarchy_cases'] = len(sres) + len(dres)
+
     # 5. verdict ---------------------------------------------------------------------------------
     unknown = 0
     for title, replay, classify in failures:
@@ -910,7 +1096,7 @@ def _check(run, rnd, thorough, tmp):
                               'found no failing input' % (b, nshapes),
                               {'builtin': b, 'broken_theorem': 'overload_forwards_same_call (conforms = false)',
                                'model_shapes': nshapes}, found_input=False)
-    searched = '%d value cases, %d context programs: no failing input that is not a listed known finding' % (len(inputs), len(progs))
+    searched = '%d value cases, %d context programs, three-level super() hierarchies: no failing input that is not a listed known finding' % (len(inputs), len(progs))
     if unknown == 0:
         if tie_msg is not None:
             run.violation('translator no longer recognises the source: ' + tie_msg,
